@@ -40,7 +40,7 @@ func init() {
 			"length-consistent mutation of it (14 classes); oracle: (a) the matcher matches and the ClientHelloInfo it hands to sub-matchers equals field by field the one " +
 			"crypto/tls' server hands to GetConfigForClient, placeholders equal the reference server name / the hello's legacy_version; (b) sni and alpn sub-matcher verdicts equal " +
 			"the same matcher modules evaluated on the reference ClientHelloInfo; (c) inputs whose first byte is not 0x16 never match; (d) every proper prefix asks for more data. " +
-			"non-trivial = crypto/tls' server reached GetConfigForClient for the flight; distinct = hash(config class, mutation class/sub-variant, extension-presence mask). (e) two tls matchers (sni, alpn) as the matcher sets of one not matcher: verdict on the complete flight = negation of the reference sub-matchers.",
+			"non-trivial = crypto/tls' server reached GetConfigForClient for the flight; distinct = hash(config class, mutation class/sub-variant, extension-presence mask). (e) two tls matchers (sni, alpn) as the matcher sets of one not matcher: verdict on the complete flight = negation of the reference sub-matchers. (f) the tls matcher without sub-matchers matches every flight the reference accepts, sets {l4.tls.server_name} to the reference's server name and asks for more on proper prefixes. nested sessions also send the outer hello itself, renamed to an inner name of the same length, inside the tunnel.",
 		Assumptions: []string{
 			"crypto/tls (go1.23.5) server is the reference: ClientHelloInfo as passed to GetConfigForClient, without any normalisation by the monitor",
 			"mutated flights that crypto/tls rejects before GetConfigForClient are counted (reference_rejected_*), not judged, whatever the matcher says",
@@ -103,6 +103,7 @@ func reference(flight []byte) (*tls.ClientHelloInfo, int, error) {
 type env struct {
 	c       *fw.Ctx
 	capture *mt.Matcher
+	plain   *mt.Matcher // the tls matcher without any handshake sub-matcher
 	routes  map[string]*routeM
 }
 
@@ -467,8 +468,64 @@ func (e *env) checkRouting(flight []byte, ref *tls.ClientHelloInfo, cfg, kind, t
 	}
 }
 
+// checkPlain: the tls matcher without sub-matchers ("match every TLS connection", typically in front of a proxy to
+// {l4.tls.server_name}) reads the hello all the same: it matches the complete flight that the reference accepts, sets the
+// server-name placeholder to what crypto/tls reports, and asks for more data on every proper prefix in lens.
+func (e *env) checkPlain(flight []byte, lens []int, tag string, spec *Spec) {
+	c := e.c
+	if e.plain == nil {
+		m, err := mt.Load("tls", `{}`)
+		if err != nil {
+			return
+		}
+		e.plain = m
+	}
+	ref, _, _ := reference(flight)
+	if ref == nil {
+		return
+	}
+	_, _, nrec, _, _ := flightMessage(flight)
+	wit := func(n int) *Witness {
+		return &Witness{Kind: "plain", Class: tag, RecordHex: hex.EncodeToString(flight), PrefixLen: n, Matcher: `{}`, Spec: spec, Ref: infoOf(ref)}
+	}
+	multi := ""
+	if nrec > 1 {
+		multi = " [hello in several records]"
+	}
+	out := evalOn(e.plain, flight)
+	c.Obs("plain_matcher_flights", 1)
+	c.Evals(1)
+	switch {
+	case out.v == "panic":
+		c.Violation("C07 crash panic in "+out.panicAt+" (plain tls matcher, "+tag+")", fmt.Sprintf("matcher panicked: %v", out.err), wit(0))
+		return
+	case out.v != mt.Yes:
+		c.Violation("C07 tls matcher without sub-matchers rejects a hello that crypto/tls accepts"+multi+": "+origin(tag), fmt.Sprintf("verdict %s %s on the complete flight", out.v, errStr(out.err)), wit(0))
+	case out.sniStr != ref.ServerName:
+		c.Violation("C07 tls matcher without sub-matchers: {l4.tls.server_name} differs from crypto/tls' server name"+multi+": "+origin(tag),
+			fmt.Sprintf("crypto/tls' server reports server name %q, after the plain tls matcher matched {l4.tls.server_name} expands to %q", ref.ServerName, out.sniStr), wit(0))
+	}
+	bad := 0
+	for _, n := range lens {
+		if n < 0 || n >= len(flight) {
+			continue
+		}
+		o := evalOn(e.plain, flight[:n])
+		c.Obs("plain_matcher_prefixes", 1)
+		if o.v == mt.More || o.v == "panic" {
+			continue
+		}
+		if bad++; bad > 2 {
+			continue
+		}
+		c.Violation(fmt.Sprintf("C07 tls matcher without sub-matchers decides (%s) before the hello is complete%s: %s", o.v, multi, origin(tag)),
+			fmt.Sprintf("prefix of %d bytes of a %d-byte first flight whose ClientHello is not complete before the last byte: answered %s %s", n, len(flight), o.v, errStr(o.err)), wit(n))
+	}
+}
+
 // checkPrefixes is oracle (d): every listed proper prefix length must ask for more data.
 func (e *env) checkPrefixes(flight []byte, lens []int, tag string, spec *Spec) {
+	e.checkPlain(flight, lens, tag, spec)
 	c := e.c
 	bad := 0
 	_, _, nrec, _, _ := flightMessage(flight)
@@ -845,6 +902,8 @@ func replay(c *fw.Ctx, raw json.RawMessage) {
 			}
 		}
 		e.checkRouting(flight, ref, w.Matcher, kind, tag, w.Spec)
+	case "plain":
+		e.checkPlain(flight, []int{w.PrefixLen}, tag, w.Spec)
 	case "routing-not":
 		ref, _, rerr := reference(flight)
 		if ref == nil {
